@@ -139,10 +139,15 @@ def float_eval(e, env):
         elif e.is_Pow:
             r = math.pow(args[0], args[1])
         else:
-            f = getattr(math, {'abs': 'fabs'}.get(type(e).__name__.lower(), type(e).__name__.lower()), None)
-            if f is None:
-                return None
-            r = f(*args)
+            nm = type(e).__name__.lower()
+            recip = {"sec": math.cos, "csc": math.sin, "cot": math.tan, "sech": math.cosh, "csch": math.sinh, "coth": math.tanh}
+            if nm in recip:
+                r = 1.0 / recip[nm](*args)
+            else:
+                f = getattr(math, {'abs': 'fabs'}.get(nm, nm), None)
+                if f is None:
+                    return None
+                r = f(*args)
     except (OverflowError, ValueError, ZeroDivisionError):
         return None
     return r if math.isfinite(r) else None
